@@ -282,6 +282,26 @@ def check_suzuki(idx: Index, rep: Report):
     total = sp.simplify(sum(v for k, v in s4 if k == "A") - a * t)
     rep.decide(total == 0, rule, f, f.node, text="order 4: coefficients of each term sum to coefficient * time", what="every term is applied for the full time in total",
                reason=f"sum of A coefficients - a t = {total}")
+    # higher even orders: S_2k(t) = S_2k-2(p t)^2 S_2k-2((1 - 4p) t) S_2k-2(p t)^2 with p = 1 / (4 - 4^(1/(2k-1))), compared numerically factor by factor
+    def ref(order, tt):
+        if order == 2:
+            return s2_of(tt)
+        pk = 1 / (4 - 4 ** (1 / (order - 1)))
+        return ref(order - 2, pk * tt) * 2 + ref(order - 2, (1 - 4 * pk) * tt) + ref(order - 2, pk * tt) * 2
+    for order in (6, 8):
+        got = fold(order, t)
+        want = ref(order, t)
+        okk = len(got) == len(want)
+        if okk:
+            for (k1, v1), (k2, v2) in zip(got, want):
+                c1 = complex(sp.N(sp.sympify(v1).subs({a: 0.7, b: -1.3, t: 0.9})))
+                c2 = complex(sp.N(sp.sympify(v2).subs({a: 0.7, b: -1.3, t: 0.9})))
+                if k1 != k2 or abs(c1 - c2) > 1e-12:
+                    okk = False
+                    break
+        rep.decide(okk, rule, f, f.node, text=f"order {order}: Suzuki's recursion on order {order - 2} with p = 1/(4 - 4^(1/{order - 1}))",
+                   what="every even order is built from the previous one with the time fraction that cancels its leading error term",
+                   reason=f"order {order} gives {len(got)} factors (expected {len(want)}); time fractions differ from Suzuki's p_k = 1/(4 - 4^(1/(order-1)))")
     g = idx.function(f"{AU}::get_exponentiated_qubit_operator_circuit")
     from ..rules.guards import decide_refusals
     from ..consteval import Opaque
